@@ -1259,6 +1259,7 @@ impl<'b, T: El> Pair<'b, T> {
             let s = unsafe { std::slice::from_raw_parts(*p, *n) };
             if keys_of(s) != *ks {
                 rep.violate("C13", format!("C13/vec<{}>/into_bump_slice/leaked-slice-changed-after-{}", T::NAME, name), String::new());
+                rep.violate("C02", "C02/into_bump_slice/contents-of-the-returned-slice-changed-by-a-later-operation", format!("vec<{}> after {}", T::NAME, name));
             }
             if T::TRACKED && s.iter().any(|x| !x.live_ok()) {
                 rep.violate("C15", "C15/vec/into_bump_slice/destructor-ran-on-leaked-slice", format!("after {}", name));
